@@ -520,7 +520,8 @@ func Render(s *Spec) *Rendered {
 		}
 		switch s.Spell {
 		case SpLocalAlias:
-			w.add("type AT = " + r.q + "T")
+			w.add("type AT0 = " + r.q + "T // first link of an alias chain")
+			w.add("type AT = AT0")
 			w.add("type AN = " + r.q + "N")
 			w.add("")
 		case SpPtrAlias:
